@@ -29,7 +29,8 @@ RULE = ('seeded random histories of 5..40 operations (create with/without explic
         'destroy) over the classes A, B (fk to A), P with link tables A--B (two-sided), A--P (one-sided) and P--P (mirrored '
         'self-join); key columns take values in {None,0,1,2} (ties) or are distinct; orderBy of each of the six join pairs '
         'drawn from None / name / -name / lists and tuples of 1..3 names with mixed directions, id included; plus a malformed '
-        'stream (orderBy=[], missing ids, taken explicit ids); each history runs in one of three connection modes: on the classes\' '
+        'stream (orderBy=[], missing ids, taken explicit ids); in 2 of 5 histories about a third of the creates take the explicit '
+        'primary keys 0, -1 or -2; each history runs in one of three connection modes: on the classes\' '
         'own connection, or (3 of 5 cases) with the classes bound to a decoy-filled database while every object is created/fetched '
         'with an explicit connection= to a second database, directly or through a Transaction of it.  After every step all 13 accessors of every live object are read '
         'and all six tables dumped.  Non-trivial = some accessor returned two or more objects and some list join had a tie or a '
@@ -106,6 +107,7 @@ def rand_history(rng, nops, malformed=False, with_id=True, maxobj=5):
     if malformed and rng.random() < 0.5:
         orders[rng.randrange(6)] = ['list']
     distinct = rng.random() < 0.25          # distinct key values: the ordering is total
+    lowids = rng.random() < 0.4             # some objects get the explicit ids 0, -1, -2
 
     live = [[], [], []]
     seq = [0, 0, 0]
@@ -145,7 +147,9 @@ def rand_history(rng, nops, malformed=False, with_id=True, maxobj=5):
                 continue
             ex = None
             rr = rng.random()
-            if rr < 0.12 and dead[c]:
+            if lowids and rng.random() < 0.35:
+                ex = rng.choice([0, 0, 0, -1, -2])       # primary keys that are falsy / negative
+            elif rr < 0.12 and dead[c]:
                 ex = rng.choice(dead[c])                 # take a destroyed object's id again
             elif rr < 0.18:
                 ex = seq[c] + rng.randint(1, 3)
@@ -220,7 +224,22 @@ def corpus():
     # seeded change c13_singlejoin_wrong_connection: the owner lives on an explicit connection / in a transaction
     single = [cr(0, [0, 0, 0]), cr(1, [0, 0, 0], ['obj', 1]), cr(1, [1, 1, 1], ['id', 1]),
               {'op': 'setfk', 'id': 1, 'fk': ['none']}, {'op': 'destroy', 'c': 1, 'id': 2}]
+    # seeded change c13_relatedjoin_drops_id_zero: objects whose primary key is 0 (falsy) or negative, as owners and
+    # as targets of every kind of join
+    def low(a, b, p):
+        return mk([['list', 'k0', '-k1'], 'id', '-k0', None, ['tuple', '-id'], 'k1'],
+                  [cr(0, [0, 0, 0], None, a), cr(1, [1, 0, 0], ['obj', a], b), cr(1, [0, 1, 0], ['id', a]),
+                   cr(2, [0, 0, 0], None, p), cr(2, [1, 1, 1]), cr(0, [1, 1, 1]),
+                   {'op': 'add', 'j': 'rbs', 'via': 0, 'x': a, 'y': b}, {'op': 'add', 'j': 'ras', 'via': 1, 'x': b, 'y': 1},
+                   {'op': 'add', 'j': 'ps', 'via': 0, 'x': a, 'y': p}, {'op': 'add', 'j': 'fr', 'via': 0, 'x': p, 'y': p},
+                   {'op': 'add', 'j': 'of', 'via': 0, 'x': p, 'y': 1}, {'op': 'add', 'j': 'fr', 'via': 1, 'x': 1, 'y': p},
+                   {'op': 'setkey', 'c': 1, 'id': b, 'col': 0, 'v': None}, {'op': 'setfk', 'id': b, 'fk': ['none']},
+                   {'op': 'setfk', 'id': b, 'fk': ['id', a]}, {'op': 'remove', 'j': 'ras', 'via': 0, 'x': b, 'y': a},
+                   {'op': 'destroy', 'c': 2, 'id': p}, {'op': 'destroy', 'c': 0, 'id': a}, cr(0, [2, 2, 2], None, a)])
+    base += [low(0, 0, 0), low(-1, -2, -1)]
     out = list(base)
+    out.append(dict(low(0, 0, 0), conn='other'))
+    out.append(dict(low(-1, 0, 0), conn='txn'))
     for mode in ('other', 'txn'):
         out.append(dict(mk(none6, single), conn=mode))
         out.append(dict(base[0], conn=mode))
